@@ -121,11 +121,14 @@ pub struct ScheduledSink {
 	pub interrupted_on_vectored: u64,
 	pub supports_vectored: bool,
 	pub faulted: bool,
+	/// after a hard error / zero write: swallow everything silently (so that a writer
+	/// can be dropped without its final flush failing), nothing more is recorded
+	pub blackhole_after_fault: bool,
 }
 
 impl ScheduledSink {
 	pub fn new(schedule: Vec<SinkAct>, default_k: usize, supports_vectored: bool) -> Self {
-		ScheduledSink { delivered: Vec::new(), schedule, default_k: default_k.max(1), calls: 0, vectored_calls: 0, plain_calls: 0, partial_inside: [0; 8], interrupted_on_vectored: 0, supports_vectored, faulted: false }
+		ScheduledSink { delivered: Vec::new(), schedule, default_k: default_k.max(1), calls: 0, vectored_calls: 0, plain_calls: 0, partial_inside: [0; 8], interrupted_on_vectored: 0, supports_vectored, faulted: false, blackhole_after_fault: true }
 	}
 	fn next_act(&mut self) -> SinkAct {
 		let i = self.calls as usize;
@@ -140,6 +143,9 @@ impl Write for ScheduledSink {
 		if buf.is_empty() {
 			// not counted against the schedule
 			return Ok(0);
+		}
+		if self.faulted && self.blackhole_after_fault {
+			return Ok(buf.len());
 		}
 		match self.next_act() {
 			SinkAct::Accept(k) => {
@@ -163,6 +169,9 @@ impl Write for ScheduledSink {
 		let total: usize = bufs.iter().map(|b| b.len()).sum();
 		if total == 0 {
 			return Ok(0);
+		}
+		if self.faulted && self.blackhole_after_fault {
+			return Ok(total);
 		}
 		if !self.supports_vectored {
 			// std's default: write the first non-empty buffer
